@@ -3,15 +3,17 @@
 EXTENDS Integers, Sequences, FiniteSets, TLC, Json
 CONSTANTS MaxConns, MaxMsgs, MaxFaults
 VARIABLE s
-Kinds == {"panic", "bad", "eof", "eofmid"}
+Kinds == {"panic", "bad", "badbody", "eof", "eofmid"}
 None == [kind |-> "none", pos |-> 0]
 FaultSets(k, m) == {f \in [1..k -> {None} \cup {[kind |-> kd, pos |-> p] : kd \in Kinds, p \in 1..m}] :
                       Cardinality({c \in 1..k : f[c].kind # "none"}) \in 1..MaxFaults}
 \* temporary accept errors before the first, between, and after the last accepted connection
 TempPatterns(k) == {[i \in 1..(k + 1) |-> 0], [i \in 1..(k + 1) |-> IF i = 1 THEN 1 ELSE 0],
                     [i \in 1..(k + 1) |-> IF i = 2 THEN 3 ELSE 0], [i \in 1..(k + 1) |-> IF i = k + 1 THEN 2 ELSE 1]}
+\* a long burst: the back-off reaches its one-second cap (5 ms doubling: the 9th error in a row)
+LongBurst == {[conns |-> 2, msgs |-> 2, faults |-> <<None, [kind |-> "eof", pos |-> 2]>>, temps |-> <<0, 10, 0>>, sm |-> FALSE]}
 Cases(k, m) == {[conns |-> k, msgs |-> m, faults |-> f, temps |-> t, sm |-> FALSE] : f \in FaultSets(k, m), t \in TempPatterns(k)}
-Init == s \in UNION {Cases(k, m) : k \in 2..MaxConns, m \in 2..MaxMsgs}
+Init == s \in UNION {Cases(k, m) : k \in 2..MaxConns, m \in 2..MaxMsgs} \cup LongBurst
          \cup {[conns |-> 2, msgs |-> 2, faults |-> f, temps |-> <<0, 1, 0>>, sm |-> TRUE] : f \in FaultSets(2, 2)}
 Next == UNCHANGED s
 Emit == PrintT(ToJson(s))
